@@ -292,7 +292,7 @@ func (c *c19Check) muxRecv(p c19Pair, legacy bool, content []byte, dir string) (
 	killAll := func() { once.Do(func() { cancel(); ctrlA.kill(); ctrlB.kill(); dataA.kill(); dataB.kill() }) }
 	defer killAll()
 	var fired atomic.Bool
-	wd := time.AfterFunc(30*time.Second, func() { fired.Store(true); killAll() })
+	wd := time.AfterFunc(20*time.Second, func() { fired.Store(true); killAll() })
 	defer func() {
 		wd.Stop()
 		if fired.Load() {
@@ -447,8 +447,8 @@ func (c *c19Check) muxObserve(p c19Pair, group string, n uint32, content []byte,
 	if legacy {
 		name = "muxlegacy-recv"
 	}
-	if atomic.LoadInt64(&c.watchdogs) > 20 {
-		c.count(c.notObs, name+": skipped after more than 20 watchdog hits in this run")
+	if atomic.LoadInt64(&c.watchdogs) > 8 {
+		c.count(c.notObs, name+": skipped after more than 8 watchdog hits in this run")
 		return
 	}
 	res := c.muxRecv(p, legacy, content, dir)
@@ -480,6 +480,8 @@ func (c *c19Check) muxObserve(p c19Pair, group string, n uint32, content []byte,
 		return
 	}
 	switch {
+	case res.done == nil && res.fileWhy != "":
+		c.count(c.notObs, "mux-recv_delivery: "+res.fileWhy)
 	case res.done == nil && res.timedOut:
 		c.R.Inconcl(fmt.Sprintf("mux-recv %s: no FileDone within the watchdog after delivering the sender's %d chunks", p, n))
 		c.count(c.notObs, "mux-recv_delivery: watchdog")
